@@ -250,6 +250,11 @@ def directed_cases(rng, n):
 def cases(rng: random.Random, tier: str):
     yield from frozen_cases()
     yield from directed_cases(rng, 40 if tier == "quick" else 1500)
+    # registry membership may change only "as specified for detach and replace": the directed registry scenarios of C03
+    from props.c03 import directed_registry_cases
+    for c in directed_registry_cases(rng, 6 if tier == "quick" else 100):
+        c.sig = "frame|" + c.sig
+        yield c
     n = 100 if tier == "quick" else 2500
     for _ in range(n):
         size = rng.choice([8, 8, 2])
